@@ -957,6 +957,8 @@ class vPeriod(TimeBase):
 
     @staticmethod
     def from_ical(ical, timezone=None):
+        if isinstance(ical, vPeriod):
+            return ical.dt
         try:
             start, end_or_duration = ical.split('/')
             start = vDDDTypes.from_ical(start, timezone=timezone)
